@@ -85,6 +85,12 @@ Definition div_raw (d : dop) (fx : fmt) (cxs : list Z) (fy : fmt) (cys : list Z)
 
 (* repr method: x / y, x // y, x % y on the float values *)
 Definition div_repr (d : dop) (fx : fmt) (cxs : list Z) (fy : fmt) (cys : list Z) (fz : fmt) (r : rmode) (o : omode) : outcome wres :=
-  let f := fun a b => match d with DTrue => f64_div a b | DFloor => f64_floordiv a b | DMod => f64_mod a b end in
-  bind (map2M (fun cx cy => Ok (f (get_val_f64 fx cx) (get_val_f64 fy cy))) cxs cys) (fun vals =>
-  set_val_real fz r o false (AF64 vals) VFloat).
+  (* x // y and x % y with an operand of more than 53 bits: the float value of that operand is rounded, so the functions
+     switch to the integer-code method (which is exact, and with which the value method must agree) *)
+  match d with
+  | DTrue => fun k => k
+  | _ => fun k => if (53 <? nw fx) || (53 <? nw fy) then div_raw d fx cxs fy cys fz r o else k
+  end
+  (let f := fun a b => match d with DTrue => f64_div a b | DFloor => f64_floordiv a b | DMod => f64_mod a b end in
+   bind (map2M (fun cx cy => Ok (f (get_val_f64 fx cx) (get_val_f64 fy cy))) cxs cys) (fun vals =>
+   set_val_real fz r o false (AF64 vals) VFloat)).
